@@ -27,6 +27,15 @@ def inputs(kind, j=0):
     if kind == "PILb":
         arr = (torch.rand(9, 6, 3, generator=g) * 255).to(torch.uint8).numpy()
         return Image.fromarray(arr, mode="RGB")
+    # extreme aspect ratios: routines that retry a random draw take their fallback path here (always at 32:1, often at 6:1)
+    if kind == "T3x":
+        return torch.rand(3, 4, 24, generator=g)
+    if kind == "T3xx":
+        return torch.rand(3, 2, 64, generator=g)
+    if kind in ("PILx", "PILxx"):
+        h, w = (4, 24) if kind == "PILx" else (2, 64)
+        arr = (torch.rand(h, w, 3, generator=g) * 255).to(torch.uint8).numpy()
+        return Image.fromarray(arr, mode="RGB")
     if kind == "SPEC":
         return torch.rand(1, 6, 5, generator=g)
     if kind == "PATCH":
@@ -52,14 +61,14 @@ LEAVES = {
     "KDRandAugmentCustom": [(RA, ["PIL"])],
     "KDRandomAdditiveGaussianNoise": [(dict(p=0.5, std=0.1), ["T3"])],
     "KDRandomColorJitter": [(dict(p=0.8, **CJ), ["T3", "PIL"])],
-    "KDRandomCrop": [(dict(size=4), ["T3", "PIL"]), (dict(size=8, padding=1), ["T3"])],
+    "KDRandomCrop": [(dict(size=4), ["T3", "PIL", "T3x"]), (dict(size=8, padding=1), ["T3"])],
     "KDTwoRandomCrop": [(dict(size=4), ["T3"]), (dict(size=4, overlap_min=0.2, overlap_max=0.6, tries=3), ["PIL"])],
     "KDRandomErasing": [(dict(p=0.5, mode="pixelwise"), ["T3"]), (dict(p=1.0, mode="channelwise", max_count=3), ["T3b"])],
     "KDRandomGaussianBlurPIL": [(dict(p=0.5, sigma=(0.1, 2.0)), ["PIL"])],
     "KDRandomGaussianBlurTV": [(dict(p=0.5, kernel_size=3, sigma=(0.1, 2.0)), ["T3"])],
     "KDRandomGrayscale": [(dict(p=0.5), ["T3", "PIL"]), (dict(p=0.0), ["T3"]), (dict(p=1.0), ["T3"])],
     "KDRandomHorizontalFlip": [(dict(), ["T3", "PIL"]), (dict(p=1.0), ["T3"])],
-    "KDRandomResizedCrop": [(dict(size=4), ["T3", "PILb"])],
+    "KDRandomResizedCrop": [(dict(size=4), ["T3", "PILb", "T3x", "T3xx", "PILxx"])],
     "KDRandomRotation": [(dict(degrees=30), ["T3", "PIL"])],
     "KDRandomSolarize": [(dict(p=0.5, threshold=0.5), ["T3"]), (dict(p=0.5, threshold=128), ["PIL"])],
     "KDRandomThreshold": [(dict(p=0.5, threshold=0.5, threshold_std=0.1), ["T3"])],
@@ -76,12 +85,12 @@ LEAVES = {
     "KDSemsegRandomHorizontalFlip": [(dict(), ["PAIR"])],
     "KDSemsegRandomResize": [(dict(base_size=(8, 8), ratio=(0.5, 2.0), interpolation="nearest"), ["PAIR"])],
     "KDSemsegRandomResizeOld": [(dict(base_size=(8, 8), ratio=(0.5, 2.0), interpolation="nearest"), ["PAIR"])],
-    "BYOLTransform": [(dict(size=8), ["PIL"]), (dict(size=8, norm=None), ["PILb"])],
+    "BYOLTransform": [(dict(size=8), ["PIL", "PILxx"]), (dict(size=8, norm=None), ["PILb", "PILx"])],
     "BYOLTransform0": [(dict(size=8), ["PIL"])],
     "BYOLTransform1": [(dict(size=8), ["PIL"])],
-    "ImagenetMinaugTransform": [(dict(size=8), ["PIL"])],
+    "ImagenetMinaugTransform": [(dict(size=8), ["PIL", "PILx", "PILxx"])],
     "MAEFinetuneTransform": [(dict(), ["PIL"])],
-    "MUGSStrongTransform": [(dict(size=8), ["PIL"])],
+    "MUGSStrongTransform": [(dict(size=8), ["PIL", "PILxx"])],
     "MUGSStrongGlobalTransform": [(dict(size=8), ["PIL"])],
     "MUGSStrongLocalTransform": [(dict(size=8), ["PILb"])],
     "KDTransformChoice": [(dict(), ["T3"])],
